@@ -940,7 +940,8 @@ impl Arena {
       return Err(Error::ReadOnly);
     }
 
-    if mem::size_of::<T>() == 0 {
+    // a zero-sized `T` only needs the extra bytes, unless they must still be aligned for `T`.
+    if mem::size_of::<T>() == 0 && (extra == 0 || mem::align_of::<T>() == 1) {
       return self.alloc_bytes_in(extra);
     }
 
